@@ -127,24 +127,36 @@ def check_blend(P, R):
 
 
 def check_prior_handover(P, R, key):
-    f = P.func(key)
-    R.analysed(f)
-    du = get_defuse(f, P)
-    me = f.self_name
+    """The prior's parameters are handed over as deep copies, floors first - in the function itself or in a helper method it
+    calls on the same object (`self._copy_ubm_parameters()`)."""
+    f0 = P.func(key)
+    R.analysed(f0)
+    scopes = [f0]
+    for c in walk_no_nested(f0.node):
+        if isinstance(c, ast.Call) and isinstance(c.func, ast.Attribute) and isinstance(c.func.value, ast.Name) and c.func.value.id == f0.self_name:
+            for t_ in P.resolve_callee(c.func, f0):
+                if t_[0] == "repo" and t_[1] not in scopes and any(isinstance(t2, ast.Attribute) and t2.attr in PRIOR_ATTRS and v2 is not None and ".ubm." in src(v2) for st2, t2, v2, k2 in stores(t_[1])):
+                    scopes.append(t_[1])
     found = {}
-    for st, t, v, k in stores(f):
-        if isinstance(t, ast.Attribute) and isinstance(t.value, ast.Name) and t.value.id == me and t.attr in PRIOR_ATTRS and v is not None:
-            c = cone(du, v, du.stmt_of(st), interproc=False)
-            from_ubm = {a.split(".")[-1] for a in c.attrs if ".ubm." in a}
-            if not from_ubm:
-                continue
-            found[t.attr] = st
-            copied = isinstance(v, ast.Call) and (src(v.func) in ("copy.deepcopy", "deepcopy", "np.array", "np.copy", "numpy.array") or (isinstance(v.func, ast.Attribute) and v.func.attr == "copy"))
-            R.check(copied, "OWN.prior-copy", key, f"{src(t)} = {src(v)[:50]}", "deep copy of the prior's array", f"the machine's {t.attr} alias the prior's array: later changes to the prior (or to the adapted machine) leak into the other", st.lineno)
-            R.check(from_ubm == {t.attr}, "OWN.prior-attr", key, f"{src(t)} <- ubm.{sorted(from_ubm)}", "same-named prior attribute", f"{t.attr} initialised from the prior's {sorted(from_ubm)}", st.lineno)
+    for f in scopes:
+        du = get_defuse(f, P)
+        me = f.self_name
+        here = {}
+        for st, t, v, k in stores(f):
+            if isinstance(t, ast.Attribute) and isinstance(t.value, ast.Name) and t.value.id == me and t.attr in PRIOR_ATTRS and v is not None:
+                c = cone(du, v, du.stmt_of(st), interproc=False)
+                from_ubm = {a.split(".")[-1] for a in c.attrs if ".ubm." in a}
+                if not from_ubm:
+                    continue
+                here[t.attr] = st
+                copied = isinstance(v, ast.Call) and (src(v.func) in ("copy.deepcopy", "deepcopy", "np.array", "np.copy", "numpy.array") or (isinstance(v.func, ast.Attribute) and v.func.attr == "copy"))
+                R.check(copied, "OWN.prior-copy", f.key, f"{src(t)} = {src(v)[:50]}", "deep copy of the prior's array", f"the machine's {t.attr} alias the prior's array: later changes to the prior (or to the adapted machine) leak into the other", st.lineno)
+                R.check(from_ubm == {t.attr}, "OWN.prior-attr", f.key, f"{src(t)} <- ubm.{sorted(from_ubm)}", "same-named prior attribute", f"{t.attr} initialised from the prior's {sorted(from_ubm)}", st.lineno)
+        if here:
+            check_setter_order(P, R, f, f.node.body, "prior hand-over", "ORDER.floors-first")
+        found.update(here)
     for a in PRIOR_ATTRS:
         R.check(a in found, "OWN.prior-complete", key, f"prior {a} handed over", "", f"the prior's {a} are not handed over to the adapted machine")
-    check_setter_order(P, R, f, f.node.body, "prior hand-over", "ORDER.floors-first")
 
 
 def run(P, R, tier):
